@@ -200,6 +200,9 @@ func runC10(tier string, seed uint64, o *Out) error {
 		c.ooo = []int64{0, c.timeout / 2, 3 * c.timeout}[rng.Intn(3)]
 		n := 5 + rng.Intn(36)
 		ops := genSessionOps(rng, c, n, 1+rng.Intn(3), rng.Intn(5) == 0)
+		if i%25 == 3 {
+			ops = overflowThenQuiet(rng, c.timeout, []string{"1", "2", "3"})
+		}
 		if err := sessionLine(o, "C10", c, ops, fmt.Sprintf("timeout=%d", c.timeout)); err != nil {
 			return err
 		}
